@@ -99,14 +99,24 @@ def hygiene():
     return bad
 
 
+def hname(h):
+    """binary name of a harness entry (a harness may be built in several tag variants)"""
+    return h.get("name", h["bin"])
+
+
 def go_build(cmds):
-    """build harness/translator binaries against the current /repo tree (module replace)"""
+    """build harness/translator binaries against the current /repo tree (module replace).
+    cmds: command names, or harness dicts {bin, name?, tags?}"""
     os.makedirs(BIN, exist_ok=True)
     shutil.copyfile(os.path.join(REPO, "go.sum"), os.path.join(GO, "go.sum"))
     for c in cmds:
-        rc, out = sh(["go", "build", "-tags", "verif", "-o", os.path.join(BIN, c), "./cmd/" + c], cwd=GO, timeout=900)
+        if isinstance(c, dict):
+            src, name, tags = c["bin"], hname(c), "verif " + c.get("tags", "")
+        else:
+            src, name, tags = c, c, "verif"
+        rc, out = sh(["go", "build", "-tags", tags.strip(), "-o", os.path.join(BIN, name), "./cmd/" + src], cwd=GO, timeout=900)
         if rc != 0:
-            return False, "go build %s failed:\n%s" % (c, out[-3000:])
+            return False, "go build %s failed:\n%s" % (name, out[-3000:])
     return True, ""
 
 
@@ -168,17 +178,23 @@ def prove(pid, spec, ev):
     ok, msg = run_gens(spec.get("gens", []))
     if not ok:
         return False, msg
-    vo = spec["props"] + "o"
-    for ext in ("o", "ok", "os", "glob"):
-        base = os.path.join(COQ, spec["props"][:-2])
+    files = [spec["props"]] + list(spec.get("extra_props", []))
+    for pf in files:
+        for ext in ("o", "ok", "os"):
+            try:
+                os.remove(os.path.join(COQ, pf + ext))
+            except OSError:
+                pass
         try:
-            os.remove(base + "." + ext if ext == "glob" else os.path.join(COQ, spec["props"] + ext))
+            os.remove(os.path.join(COQ, pf[:-2] + ".glob"))
         except OSError:
             pass
     t0 = time.time()
-    ok, out = coq_make(vo)
+    ok, out = coq_make(" ".join(pf + "o" for pf in files))
     ev["coq_build_s"] = round(time.time() - t0, 1)
-    names = count_obligations(os.path.join(COQ, spec["props"]))
+    names = []
+    for pf in files:
+        names += count_obligations(os.path.join(COQ, pf))
     ev["obligations"] = len(names)
     ev["theorems"] = names
     if not ok:
@@ -194,7 +210,7 @@ def prove(pid, spec, ev):
 
 
 def coqchk(spec, ev):
-    mod = "Iscp." + spec["props"][:-2].replace("/", ".")
+    mod = " ".join("Iscp." + pf[:-2].replace("/", ".") for pf in [spec["props"]] + list(spec.get("extra_props", [])))
     t0 = time.time()
     rc, out = sh("coqchk -silent -o -Q . Iscp %s" % mod, cwd=COQ, timeout=3000)
     ev["coqchk_s"] = round(time.time() - t0, 1)
@@ -207,16 +223,16 @@ def coqchk(spec, ev):
 # ------------------------------------------------------------------ harness + judge
 
 def run_harness(pid, h, seed, tier, replay=None, timeout=1200):
-    outdir = os.path.join(RUN, pid, h["bin"])
+    outdir = os.path.join(RUN, pid, hname(h))
     shutil.rmtree(outdir, ignore_errors=True)
     os.makedirs(outdir, exist_ok=True)
-    cmd = [os.path.join(BIN, h["bin"]), "-seed", str(seed), "-tier", tier, "-out", outdir] + h.get("args", [])
+    cmd = [os.path.join(BIN, hname(h)), "-seed", str(seed), "-tier", tier, "-out", outdir] + h.get("args", [])
     if replay:
         cmd += ["-replay", replay]
     rc, out = sh(cmd, cwd=GO, timeout=timeout)
     open(os.path.join(outdir, "harness.log"), "w").write(out)
     if rc != 0:
-        return None, "harness %s failed (rc=%d): %s" % (h["bin"], rc, out[-2000:])
+        return None, "harness %s failed (rc=%d): %s" % (hname(h), rc, out[-2000:])
     return outdir, ""
 
 
@@ -314,11 +330,12 @@ def write_evidence(pid, tier, seed, ev, wall, violations):
 def run_all_harnesses(pid, spec, seed, tier, ev, replay=None):
     """returns (error, failing, disagreeing): lists of (harness, case, flags)"""
     failing, disagree = [], []
-    ok, msg = go_build([h["bin"] for h in spec["harness"]])
+    hs = [h for h in spec["harness"] if tier in h.get("tiers", ("quick", "thorough"))]
+    ok, msg = go_build(hs)
     if not ok:
         return msg, failing, disagree
-    for h in spec["harness"]:
-        if replay and h["bin"] != replay[0]:
+    for h in hs:
+        if replay and hname(h) != replay[0]:
             continue
         outdir, msg = run_harness(pid, h, seed, tier, replay[1] if replay else None, timeout=h.get("timeout", 1500 if tier == "quick" else 5000))
         if outdir is None:
@@ -328,21 +345,21 @@ def run_all_harnesses(pid, spec, seed, tier, ev, replay=None):
             return msg, failing, disagree
         ev["evaluations"] = ev.get("evaluations", 0) + meta["evaluations"]
         ev["distinct_nontrivial"] = ev.get("distinct_nontrivial", 0) + meta["distinct_nontrivial"]
-        ev["rule"] = (ev.get("rule", "") + " | " if ev.get("rule") else "") + h["bin"] + ": " + meta["rule"]
+        ev["rule"] = (ev.get("rule", "") + " | " if ev.get("rule") else "") + hname(h) + ": " + meta["rule"]
         ev.setdefault("samples", []).extend(meta["samples"][:2])
-        ev.setdefault("distribution", {})[h["bin"]] = meta["distribution"]
+        ev.setdefault("distribution", {})[hname(h)] = meta["distribution"]
         ev["exhaustive"] = ev.get("exhaustive", True) and meta.get("exhaustive", False)
         if meta.get("extra"):
-            ev.setdefault("extra", {})[h["bin"]] = meta["extra"]
+            ev.setdefault("extra", {})[hname(h)] = meta["extra"]
         for c, v in zip(cases, verdicts):
-            c["harness"] = h["bin"]
+            c["harness"] = hname(h)
             okmask = h.get("okmask", 2)
             if c.get("direct_violation"):
-                failing.append((h["bin"], c, v | okmask))
+                failing.append((hname(h), c, v | okmask))
             elif v & okmask:
-                failing.append((h["bin"], c, v))
+                failing.append((hname(h), c, v))
             elif v & 1:
-                disagree.append((h["bin"], c, v))
+                disagree.append((hname(h), c, v))
     return "", failing, disagree
 
 
@@ -362,7 +379,7 @@ def check_property(pid, tier, seed, replay=None):
     rp = None
     if replay:
         rec = json.load(open(replay))
-        rp = (rec.get("harness") or spec["harness"][0]["bin"], os.path.abspath(replay))
+        rp = (rec.get("harness") or hname(spec["harness"][0]), os.path.abspath(replay))
     err, failing, disagree = run_all_harnesses(pid, spec, seed, tier, ev, rp) if spec.get("harness") else ("", [], [])
     # extra property-specific stressors (race detector, loopback runs, ...)
     if not err and not replay:
@@ -451,8 +468,12 @@ def setup():
     if rc != 0:
         log("coq build failed:\n" + out[-3000:]); return 1
     # only the commands some registered check uses (work in progress under go/cmd must not break setup)
-    cmds = sorted({g["bin"] for g in P.GENS.values()} | {h["bin"] for s in P.PROPS.values() for h in s.get("harness", [])}
-                  | {b for s in P.PROPS.values() for b in s.get("extra_bins", [])})
+    cmds = sorted({g["bin"] for g in P.GENS.values()} | {b for s in P.PROPS.values() for b in s.get("extra_bins", [])})
+    seen = {}
+    for s_ in P.PROPS.values():
+        for h in s_.get("harness", []):
+            seen[hname(h)] = h
+    cmds = cmds + [seen[k] for k in sorted(seen)]
     ok, msg = go_build(cmds)
     if not ok:
         log(msg); return 1
